@@ -122,7 +122,7 @@ def _int(op, key, default=0):
 
 class Outcome:
   __slots__ = ('name', 'target', 'status', 'value', 'exc', 'new_root',
-               'moved_root', 'used_src', 'detail', 'pre_sym_child', 'pre_deep')
+               'moved_root', 'used_src', 'detail', 'pre_sym_child', 'pre_deep', 'holders')
 
   def __init__(self, name):
     self.name = name
@@ -136,9 +136,10 @@ class Outcome:
     self.detail = ''
     self.pre_sym_child = False
     self.pre_deep = False
+    self.holders = []       # containers this op writes into
 
 
-def apply_op(roots, op, allow_move=True):
+def apply_op(roots, op, allow_move=True, direct_inplace=False, prebuilt=None):
   """Applies one op to the forest `roots` (list, mutated for new/moved roots)."""
   if not isinstance(op, dict) or not isinstance(op.get('op'), str):
     raise core.InvalidCase(op)
@@ -153,6 +154,7 @@ def apply_op(roots, op, allow_move=True):
   if n is None:
     return out
   out.target = n
+  out.holders = [n]
   kids = [v for _, v in n.sym_items() if isinstance(v, pg.Symbolic)]
   out.pre_sym_child = bool(kids)
   out.pre_deep = n.sym_parent is not None or any(
@@ -180,7 +182,10 @@ def apply_op(roots, op, allow_move=True):
       if cand.sym_parent is None:
         moved_root = cand
   if not out.used_src:
-    val = values.build(_get(op, 'v'), symbolic=bool(_get(op, 'sv')))
+    if prebuilt is not None:
+      val = prebuilt()     # built by the caller outside any scope it has entered
+    else:
+      val = values.build(_get(op, 'v'), symbolic=bool(_get(op, 'sv')))
 
   def as_list(v):
     if isinstance(v, list):
@@ -223,7 +228,15 @@ def apply_op(roots, op, allow_move=True):
       elif name in ('iadd', 'imul', 'ior'):
         arg = as_list(val) if name == 'iadd' else (m % 3 if name == 'imul' else as_dict(val))
         p = n.sym_parent
-        if p is None:
+        if direct_inplace:
+          # the operator method itself (no re-assignment of the slot that holds n)
+          if name == 'iadd':
+            n.__iadd__(arg)
+          elif name == 'imul':
+            n.__imul__(arg)
+          else:
+            n.__ior__(arg)
+        elif p is None:
           idx = [ri for ri, rt in enumerate(roots) if rt is n][0]
           if name == 'iadd':
             roots[idx] += arg
@@ -322,9 +335,12 @@ def apply_op(roots, op, allow_move=True):
           out.status = 'skip'
           return out
 
+        out.holders = []
+
         def entry(ii, mm, vv):
           pool = llocs if (llocs and mm % 2 == 0) else locs
           loc, holder = pool[ii % len(pool)]
+          out.holders.append(holder)
           rel = loc - n.sym_path
           if mm == 4:
             vv = pg.MISSING_VALUE
